@@ -343,22 +343,19 @@ func (h *harness) isExcluded(id string) bool { return vk.Excluded(id) }
 // skipKnown: every violation of the statement is the class of an excluded
 // known finding: the statement is left out (counted).
 func (h *harness) skipKnown(o *outcome) bool {
-	if len(o.musts) == 0 || o.soundMust(h.isExcluded) != nil {
-		return false
+	ids := o.knownOnly(h.isExcluded)
+	for _, id := range ids {
+		vk.CountExcluded(id)
+		h.c.Label("excluded-" + id)
 	}
-	seen := map[string]bool{}
-	for _, m := range o.musts {
-		if !seen[m.known] {
-			seen[m.known] = true
-			vk.CountExcluded(m.known)
-			h.c.Label("excluded-" + m.known)
-		}
-	}
-	return true
+	return len(ids) > 0
 }
 
 func (h *harness) labelStmt(s *stmt, o *outcome) {
 	h.c.Label("stmt-" + s.kind.String())
+	for _, n := range o.notes {
+		h.c.Label(n)
+	}
 	if s.nAuto > 0 {
 		h.c.Label("auto-increment-insert")
 	}
@@ -551,6 +548,9 @@ func (h *harness) runTx(later map[string]*[]index, allowDDL bool) {
 		if o.stopCase {
 			h.stop = true
 			h.c.Label("case-ended-constraints-undefined")
+			if tx != nil && !tx.Closed() {
+				tx.Cancel()
+			}
 			return
 		}
 	}
@@ -599,9 +599,8 @@ func (h *harness) runTx(later map[string]*[]index, allowDDL bool) {
 			commit = false
 			break
 		}
-		if firstMust != nil {
-			h.checkAccepted(stmts[len(stmts)-1], firstMust, "in a committed BEGIN…COMMIT block")
-		}
+		// (the verdict on an accepted block is taken below, from the replay with the generated keys: the
+		// first pass ran on placeholder keys)
 		// generated keys: consecutive from FirstInsertedPKs
 		next := map[string]int64{}
 		if len(committed) > 0 {
@@ -625,7 +624,13 @@ func (h *harness) runTx(later map[string]*[]index, allowDDL bool) {
 			}
 			o2 := work.apply(s)
 			if sm := o2.soundMust(h.isExcluded); sm != nil {
-				h.failf("committed block: statement %d (%s) violates a constraint (%s) with the generated keys %v: %s", i, s.text, sm.class, s.autoKeys, sm.what)
+				h.failf("committed BEGIN…COMMIT block: statement %d (%s) was accepted although it violates a constraint (%s) (generated keys %v): %s", i, s.text, sm.class, s.autoKeys, sm.what)
+			}
+			if h.skipKnown(&o2) || o2.endTx {
+				// only visible with the real keys: the reference cannot follow
+				h.c.Label("case-ended-at-known-finding")
+				h.stop = true
+				return
 			}
 			h.noteResult(s.tbl, &o2, nil)
 			if o2.resync {
